@@ -236,7 +236,7 @@ type request struct {
 var hostPool = []string{"example.com", "api.example.com", "a.b.example.com", "other.org", "example.com:8443", "localhost"}
 
 func genCase(t *rapid.T) ([]ruleSpec, request) {
-	st := vkit.ExprStyle{UnnamedSingle: rapid.IntRange(0, 5).Draw(t, "unnamed") == 0, FreeName: rapid.SampledFrom([]string{"rest", "rest", "*"}).Draw(t, "freeName")}
+	st := vkit.ExprStyle{UnnamedSingle: rapid.IntRange(0, 5).Draw(t, "unnamed") == 0, FreeName: rapid.SampledFrom([]string{"rest", "rest", "*", "rest", "*", ""}).Draw(t, "freeName")} // "" = a bare "*"
 	req := request{
 		Method: rapid.SampledFrom([]string{"GET", "POST", "DELETE", "PURGE"}).Draw(t, "method"),
 		Scheme: rapid.SampledFrom([]string{"http", "https"}).Draw(t, "scheme"),
@@ -627,7 +627,8 @@ func TestMatchConditionsAndCaptures(t *testing.T) {
 		}
 
 		for _, c := range caps {
-			if c.Name != "*" {
+			// (a wildcard without a name - ":*", "**", or a bare "*" - is not exposed)
+			if c.Name != "*" && c.Name != "" {
 				wantCaps[c.Name] = decodeCapture(c.Value, slash)
 			}
 		}
